@@ -358,7 +358,7 @@ def r4_interior(ctx, F, prop_rule="C04.R4"):
                 ctx.ok(prop_rule, key + ":nested", "nested type %s (its own cells are inventoried separately)" % ty[:50])
 
 
-def r4_array(ctx, F):
+def r4_array(ctx, F, rule="C04.R4"):
     """the process-wide empty array: counter writes are guarded by !is_statically_allocated"""
     for name in ("inc_iter_count", "dec_iter_count"):
         f = F.one(r"values::types::array::Array::<'v>::%s$" % name)
@@ -369,7 +369,7 @@ def r4_array(ctx, F):
             from kern import bool_call_edges
             fe = bool_call_edges(F, f, guard[0], "false")
             good = bool(fe) and all(st.bb not in f.reach(0, cut_edges=fe) for st in writes)
-        ctx.check(good, "C04.R4", "Array::%s:static-guard" % name,
+        ctx.check(good, rule, "Array::%s:static-guard" % name,
                   "the counter is written only on the !is_statically_allocated edge",
                   "Array::%s writes iter_count of the process-wide static empty array (shared between threads)" % name,
                   fn=f)
